@@ -14,7 +14,9 @@ A *case* is a jsonable dict describing one call of `draw()`:
   C07      buffering 'none'|'full'|'line' (delivery discipline of the virtual stdout, see world.VStdout)
   new API  cls 'FitR' + iter_size (per-operation size of an iteration, see extra_classes), padcls
            'base'|'trivial'|'thirds' (AlignedPadding subclass used for an aligned `pad`)
-  world    stdout_size (cols, rows): standard output is NOT the active terminal (VTty.stdout_size);
+  world    cell_ratio (term_image.set_cell_ratio), srcpx (pixel size of the source image instead of the
+           default size-in-cells x cell size);
+           stdout_size (cols, rows): standard output is NOT the active terminal (VTty.stdout_size);
            alpha (old API draw() argument, C07 only)
   history  term0 (terminal size at the start), pre: steps executed before the judged draw in the same world on
            the same object - {"op": "draw", "kw": {overrides}} | {"op": "resize", "term": (c, r)} |
@@ -197,7 +199,7 @@ def old_image(case, L=None):
     w, h = case["size"]
     sw, sh = case.get("srcsize") or (w, h)      # the source image is sw x sh cells worth of pixels
     cw, chh = case.get("cell") or CELL
-    pw, ph = sw * cw, sh * (chh if style != "block" else 2)
+    pw, ph = case.get("srcpx") or (sw * cw, sh * (chh if style != "block" else 2))
     n = case["frames"]
     kw = {} if case.get("dyn") else dict(width=w, height=h)
     if n > 1:
@@ -321,6 +323,8 @@ def execute(case, plan=None, on_frame=None, prepare=None, tty_fault=None):
     clock = Clock(stdout)
     cols0, rows0 = case.get("term0") or (cols, rows)      # terminal size before the history `pre`
     tty = world.setup(ident, cols0, rows0, cell=cell, stdout=stdout, clock=clock)
+    if case.get("cell_ratio"):
+        L.ti.set_cell_ratio(case["cell_ratio"])
     if case.get("stdout_size"):
         # standard output is not the active terminal: only the tty's own fd reports the terminal's size,
         # the shutil fallback reports this one
@@ -441,7 +445,8 @@ def _inner_key(case, k):
     return ("old", case["style"], case.get("ident", "other"), case.get("method"), tuple(case["size"]),
             tuple(case.get("srcsize") or ()), case["frames"], k, tuple(case.get("cell") or CELL), case.get("compress"),
             bool(case["frames"] > 1 and case.get("animate", True)),
-            tuple(sorted((case.get("style_kw") or {}).items())))
+            tuple(sorted((case.get("style_kw") or {}).items())), case.get("cell_ratio"),
+            tuple(case.get("srcpx") or ()))
 
 
 def inner_frame(case, k):
@@ -453,6 +458,8 @@ def inner_frame(case, k):
     cols, rows = 40, 30
     ident = case.get("ident", "other")
     world.setup(ident, cols, rows, cell=tuple(case.get("cell") or CELL))
+    if case.get("cell_ratio"):
+        L.ti.set_cell_ratio(case["cell_ratio"])
     if case["api"] == "new":
         r = new_renderable(dict(case, seek=k, cls="TextR", indef=False, frames=max(case["frames"], k + 1, 2),
                                 size=eff_size(case), iter_size=None))
